@@ -5,6 +5,10 @@
 
 package vikja
 
+// stored actions are handed out by EntityActions and marshalled outside the lock: never written once stored
+//@ type vikjapb.EntityAction
+//@   immutable EntityId, Name, Timestamp, Data
+
 //@ type State
 //@   guarded_by entityActions : entityActionMutex
 //@   lock_level entityActionMutex = 45
